@@ -73,6 +73,7 @@ class Remove(Scenario):
             get("d3").values = mk_array(X, o3, (3,), "float64")
             via_parent = bool(cx.bool("through_the_parent"))
             locked = bool(cx.bool("delete_permission_off"))
+            lock_then_reopen = bool(cx.bool("session_closed_after_the_permission_was_set"))
             follow = FOLLOW[int(cx.int("follow_up", 0, len(FOLLOW)))]
             before = tree_snapshot(ws)
 
@@ -91,6 +92,11 @@ class Remove(Scenario):
             t = get(target)
             if locked:
                 t.allow_delete = False
+                if lock_then_reopen:        # the permission is then read from the file (a stored flag, not a Python bool)
+                    del t
+                    ws.close()
+                    ws = Workspace(ws.h5file)
+                    t = get(target)
                 before = tree_snapshot(ws)
             refused = False
             try:
@@ -250,7 +256,7 @@ def main(tier, seed):
                  "one follow-up", "removal through the parent of an entity whose delete permission is off (the statement only covers the workspace "
                  "entry point)"],
         bounds="removed entity in {data in 2 / 1 / 0 property groups, object with children, nested group, curve, top group, cell data} x "
-               "{workspace.remove_entity, parent.remove_children} x delete permission {on, off} x follow-up {none, copy a survivor, remove "
+               "{workspace.remove_entity, parent.remove_children} x delete permission {on, off, off and re-read from the file} x follow-up {none, copy a survivor, remove "
                "another entity, add data, re-open then copy}: 8 x 2 x 2 x 5 paths",
         expected_outcomes={"Remove": {"ok"}, "DetachThenClose": {"ok"}},
     )
